@@ -127,8 +127,9 @@ void EpollFdEvent::reloadEpoll()
     if (d_->read_event_num > 0)
         new_events |= EPOLLIN;
 
+    //! 与select的exceptfds一致：带外数据(EPOLLPRI)也属于异常事件
     if (d_->except_event_num > 0)
-        new_events |= EPOLLERR;
+        new_events |= (EPOLLERR | EPOLLPRI);
 
     d_->ev.events = new_events;
 
@@ -165,6 +166,11 @@ void EpollFdEvent::OnEventCallback(uint32_t events, EpollLoop *loop, int fd)
 
     if (events & EPOLLERR) {
         events &= ~EPOLLERR;
+        tbox_events |= kExceptEvent;
+    }
+
+    if (events & EPOLLPRI) {
+        events &= ~EPOLLPRI;
         tbox_events |= kExceptEvent;
     }
 
